@@ -123,3 +123,301 @@ func genFWNeg(g *vlib.G) {
 		return !g.Stopped()
 	})
 }
+
+var alphaNeg = []float64{-1, 1}
+
+// genDg4Neg extends space (a) to four nodes for the routines that accept
+// negative weights (Bellman-Ford, Floyd-Warshall, Johnson; DijkstraAllPaths
+// for its documented panic): 4-node digraphs with each ordered pair in
+// {absent,-1,1}; all 3^12 graphs in the thorough tier, the graphs with index
+// congruent to 3 modulo 5 in the quick tier; one rotating container/ID-map
+// combination per graph.
+func genDg4Neg(g *vlib.G) {
+	ps := pairs(4, true)
+	thorough := g.Thorough()
+	radix, tail := 3, 4
+	head := len(ps) - tail
+	odometer(head, radix, func(bidx int, hd []int) bool {
+		h := append([]int(nil), hd...)
+		g.Case(fmt.Sprintf("n=4 dir w=%s+%d", digitString(h, alphaNeg), tail), func(t *vlib.T) {
+			digits := make([]int, len(ps))
+			copy(digits, h)
+			nneg := 0
+			odometer(tail, radix, func(tidx int, tl []int) bool {
+				gi := bidx*81 + tidx
+				if !thorough && gi%5 != 3 {
+					return true
+				}
+				copy(digits[head:], tl)
+				r := newRef(specFromDigits(4, true, ps, digits, alphaNeg))
+				rot := int((uint64(gi)*2654435761 + 977) >> 7 % 15)
+				c := newCtx(t, r, graphKinds[rot%5], rot/5)
+				c.lite = true
+				for s := 0; s < r.n; s++ {
+					c.bellmanFord(s)
+				}
+				c.allPairs()
+				t.Count("graphs", 1)
+				if r.anyNeg {
+					nneg++
+				}
+				return true
+			})
+			t.Nontrivial()
+			t.Outcome(fmt.Sprintf("negcycle graphs in block: %d", nneg/8*8))
+		})
+		return !g.Stopped()
+	})
+}
+
+const classCut = "zero-cycle-cut-invalid-path"
+
+// sampleCap bounds the number of times a routine is re-run on a query whose
+// answer depends on the uncontrolled random choice.
+const sampleCap = 20000
+
+// cutQueries runs, for every query (s,t) for which the model in cutmodel.go
+// finds a sequence of random choices leading to an invalid answer, the real
+// routines repeatedly until one returns a path that is not a simple shortest
+// path (a violation, class zero-cycle-cut-invalid-path) or sampleCap is
+// reached. It returns the number of flagged queries.
+func (c *ctx) cutQueries() int {
+	r, n := c.r, c.r.n
+	flagged := 0
+	type sampler struct {
+		name string
+		f    func() ([]graph.Node, float64)
+	}
+	for s := 0; s < n; s++ {
+		var da, ba path.ShortestAlts
+		haveD, haveB := false, false
+		for t := 0; t < n; t++ {
+			for dir := 0; dir < 2; dir++ {
+				forward := dir == 1
+				if !r.cutRisk(s, t, forward) {
+					continue
+				}
+				flagged++
+				var ss []sampler
+				tid, sid := c.id(t), c.id(s)
+				if !forward {
+					if !r.negEdgeReach[s] {
+						if !haveD {
+							da, haveD = path.DijkstraAllFrom(c.node(s), c.tg), true
+						}
+						ss = append(ss, sampler{"DijkstraAllFrom.To", func() ([]graph.Node, float64) { p, w, _ := da.To(tid); return p, w }})
+					}
+					if !r.negReach[s] {
+						if !haveB {
+							ba, _ = path.BellmanFordAllFrom(c.node(s), c.tg)
+							haveB = true
+						}
+						ss = append(ss, sampler{"BellmanFordAllFrom.To", func() ([]graph.Node, float64) { p, w, _ := ba.To(tid); return p, w }})
+					}
+					if c.gg != nil && !r.anyNegEdge {
+						ap := path.DijkstraAllPaths(c.gg)
+						ss = append(ss, sampler{"DijkstraAllPaths.Between", func() ([]graph.Node, float64) { p, w, _ := ap.Between(sid, tid); return p, w }})
+					}
+					if c.gg != nil && !r.anyNeg {
+						ap, _ := path.JohnsonAllPaths(c.gg)
+						ss = append(ss, sampler{"JohnsonAllPaths.Between", func() ([]graph.Node, float64) { p, w, _ := ap.Between(sid, tid); return p, w }})
+					}
+				} else if c.gg != nil && !r.anyNeg {
+					ap, _ := path.FloydWarshall(c.gg)
+					ss = append(ss, sampler{"FloydWarshall.Between", func() ([]graph.Node, float64) { p, w, _ := ap.Between(sid, tid); return p, w }})
+				}
+				for _, sm := range ss {
+					hit := false
+					nsamp := 0
+					for i := 0; i < sampleCap && !hit; i++ {
+						nsamp++
+						var p []graph.Node
+						var w float64
+						if msg := try(func() { p, w = sm.f() }); msg != "" {
+							c.classed(classCut, sm.name, s, t, "panic while cutting a zero-weight cycle: %s", msg)
+							hit = true
+							break
+						}
+						ix, pwt, msg := c.walk(p, s, t)
+						switch {
+						case w != r.d[s][t]:
+							c.failf(sm.name, s, t, "weight %v, true distance %v", w, r.d[s][t])
+							hit = true
+						case msg != "":
+							c.classed(classCut, sm.name, s, t, "with a zero-weight cycle among the shortest-path predecessors: %s (reported weight %v, sample %d)", msg, w, i)
+							hit = true
+						case pwt != w || !isSimple(ix):
+							c.classed(classCut, sm.name, s, t, "with a zero-weight cycle among the shortest-path predecessors: path %s (edge weights sum to %v) returned with weight %v (sample %d)", ids(p), pwt, w, i)
+							hit = true
+						}
+						c.t.Count("cut_samples", 1)
+					}
+					if hit {
+						c.t.Max("cut_max_samples_needed", int64(nsamp))
+						c.t.Count("cut_queries_confirmed", 1)
+					} else {
+						c.t.Count("cut_queries_not_observed_in_samples", 1)
+					}
+				}
+			}
+		}
+	}
+	kind := "undirected"
+	if c.sp.directed {
+		kind = "directed"
+	}
+	c.t.Count(fmt.Sprintf("cut_queries_flagged (n=%d %s)", n, kind), int64(flagged))
+	return flagged
+}
+
+// genZeroCut: see cutQueries. Spaces: the digraphs of dg3, the undirected
+// graphs on <= 4 nodes, the undirected 5-node graphs with all weights 0;
+// thorough adds the undirected graphs on 5 nodes over {absent,0,1} and every
+// 4-node digraph over {absent,0,1}.
+func genZeroCut(g *vlib.G) {
+	one := func(t *vlib.T, r *ref, idx int) {
+		if len(r.zero) == 0 {
+			t.Outcome("no zero-weight cycle")
+			return
+		}
+		c := newCtx(t, r, weightedKinds[idx%6], idx%3)
+		if c.cutQueries() > 0 {
+			t.Nontrivial()
+			t.Outcome("flagged queries")
+		} else {
+			t.Outcome("zero-weight cycle, no flagged query")
+		}
+	}
+	ps3 := pairs(3, true)
+	odometer(len(ps3), len(alphaA)+1, func(idx int, digits []int) bool {
+		d := append([]int(nil), digits...)
+		g.Case("n=3 dir w="+digitString(d, alphaA), func(t *vlib.T) {
+			one(t, newRef(specFromDigits(3, true, ps3, d, alphaA)), idx)
+		})
+		return !g.Stopped()
+	})
+	for n := 2; n <= 4; n++ {
+		n := n
+		ps := pairs(n, false)
+		odometer(len(ps), len(alphaBFull)+1, func(idx int, digits []int) bool {
+			d := append([]int(nil), digits...)
+			g.Case(fmt.Sprintf("n=%d und w=%s", n, digitString(d, alphaBFull)), func(t *vlib.T) {
+				one(t, newRef(specFromDigits(n, false, ps, d, alphaBFull)), idx)
+			})
+			return !g.Stopped()
+		})
+	}
+	alpha01 := []float64{0, 1}
+	// quick and thorough: the 1024 undirected 5-node graphs whose edges all weigh 0
+	{
+		ps := pairs(5, false)
+		alpha0 := []float64{0}
+		odometer(len(ps), 2, func(idx int, digits []int) bool {
+			d := append([]int(nil), digits...)
+			g.Case("n=5 und w="+digitString(d, alpha0), func(t *vlib.T) {
+				one(t, newRef(specFromDigits(5, false, ps, d, alpha0)), idx)
+			})
+			return !g.Stopped()
+		})
+	}
+	scan := func(n int, directed bool, tail int) {
+		ps := pairs(n, directed)
+		radix := 3
+		head := len(ps) - tail
+		kind := "und"
+		if directed {
+			kind = "dir"
+		}
+		odometer(head, radix, func(bidx int, hd []int) bool {
+			h := append([]int(nil), hd...)
+			g.Case(fmt.Sprintf("n=%d %s w=%s+%d", n, kind, digitString(h, alpha01), tail), func(t *vlib.T) {
+				digits := make([]int, len(ps))
+				copy(digits, h)
+				fl := 0
+				odometer(tail, radix, func(tidx int, tl []int) bool {
+					copy(digits[head:], tl)
+					r := newRef(specFromDigits(n, directed, ps, digits, alpha01))
+					if len(r.zero) == 0 {
+						return true
+					}
+					gi := bidx*pow(radix, tail) + tidx
+					if gi%4 != 1 {
+						// the model is evaluated for every graph, the real
+						// routines are sampled on every 4th graph
+						for s := 0; s < r.n; s++ {
+							for tt := 0; tt < r.n; tt++ {
+								if r.cutRisk(s, tt, false) || r.cutRisk(s, tt, true) {
+									t.Count("cut_queries_flagged_not_sampled", 1)
+								}
+							}
+						}
+						return true
+					}
+					fl += newCtx(t, r, weightedKinds[gi%6], gi%3).cutQueries()
+					return true
+				})
+				if fl > 0 {
+					t.Nontrivial()
+					t.Outcome("flagged queries")
+				} else {
+					t.Outcome("no flagged query")
+				}
+			})
+			return !g.Stopped()
+		})
+	}
+	if g.Thorough() {
+		scan(5, false, 4)
+		scan(4, true, 4)
+	}
+}
+
+// genSelfLoop: multigraphs with positive self loops (simple graphs cannot
+// have them). A positive self loop changes no distance and no shortest path,
+// so the reference ignores it. 2-node multigraphs over {absent,1,2} and
+// 3-node multigraphs over {absent,1}, directed and undirected, each node with
+// a self loop in {absent,1,2}; both multi container kinds, three ID maps.
+func genSelfLoop(g *vlib.G) {
+	for _, directed := range []bool{true, false} {
+		for n := 2; n <= 3; n++ {
+			n, directed := n, directed
+			ps := pairs(n, directed)
+			alpha := alphaB
+			if n == 3 {
+				alpha = alphaOne
+			}
+			kind := "und"
+			if directed {
+				kind = "dir"
+			}
+			odometer(len(ps), len(alpha)+1, func(idx int, digits []int) bool {
+				d := append([]int(nil), digits...)
+				odometer(n, 3, func(lidx int, loops []int) bool {
+					l := append([]int(nil), loops...)
+					if lidx == 0 {
+						return true // no self loop at all: covered elsewhere
+					}
+					g.Case(fmt.Sprintf("n=%d %s w=%s loops=%s", n, kind, digitString(d, alpha), digitString(l, alphaB)), func(t *vlib.T) {
+						sp := specFromDigits(n, directed, ps, d, alpha)
+						for i, v := range l {
+							if v > 0 {
+								sp.has[i][i] = true
+								sp.w[i][i] = alphaB[v-1]
+							}
+						}
+						r := newRef(sp)
+						for _, k := range []int{kMultiSum, kMultiMin} {
+							for idk := 0; idk < 3; idk++ {
+								newCtx(t, r, k, idk).run()
+							}
+						}
+						t.Nontrivial()
+						t.Outcome(features(r))
+					})
+					return !g.Stopped()
+				})
+				return !g.Stopped()
+			})
+		}
+	}
+}
